@@ -133,6 +133,133 @@ def model_obs(m):
 
 
 # --------------------------------------------------------------------------
+# the domain of the !py sub-language model (PypyrModel/PyEval.lean, FormatSession.lean)
+# --------------------------------------------------------------------------
+
+PY_BUILTINS = frozenset(dir(__import__('builtins')))
+
+
+def _has_float_w(w):
+    """a float anywhere in a wire value"""
+    if isinstance(w, list):
+        return any(_has_float_w(x) for x in w)
+    if isinstance(w, dict):
+        if 'f' in w:
+            return True
+        if 'd' in w:
+            return any(_has_float_w(k) or _has_float_w(v) for k, v in w['d'])
+        for key in ('t', 'set', 'jsonify'):
+            if key in w:
+                return _has_float_w(w[key])
+    return False
+
+
+def _py_walk(e, facts):
+    """names read / bound, `len` nodes and arithmetic nodes of a wire PyExpr / PyW"""
+    if 'n' in e:
+        facts['reads'].add(e['n'])
+    elif 'w' in e:
+        facts['binds'].add(e['w'][0])
+        _py_walk(e['w'][1], facts)
+    elif 'not' in e:
+        _py_walk(e['not'], facts)
+    elif 'len' in e:
+        facts['len'] = True
+        _py_walk(e['len'], facts)
+    elif 'idx' in e:
+        _py_walk(e['idx'][0], facts)
+        _py_walk(e['idx'][1], facts)
+    elif 'op' in e:
+        if e['op'] in ('+', '-', '*'):
+            facts['arith'] = True
+        _py_walk(e['a'], facts)
+        _py_walk(e['b'], facts)
+    elif 'c' in e:
+        if isinstance(e['c'], float):
+            facts['floatconst'] = True
+    else:
+        raise ValueError(e)
+
+
+def py_in_domain(e, items, builtin_reads_ok=False):
+    """Is the `!py` expression `e` (wire PyExpr, or PyW with {'w': [x, e]}), evaluated on a context whose items are
+    `items` (key -> wire value), inside the domain on which the Lean evaluator (evalPy / evalPyW) claims to be
+    Python's eval? Returns None when it is, else the reason:
+      len-shadowed   `len(…)` is SYNTAX of PyExpr (always the builtin); in Python `len` is a name looked up in the
+                     namespace, where a context key `len` - or a `(len := …)` of the same evaluation - wins
+      float-arith    `+ - *` are exact on dyadic rationals in the model (Num.add/sub/mul never round), Python
+                     rounds to binary64: conservatively, any arithmetic node in an expression that reads a name
+                     whose context value holds a float anywhere (constants are never floats)
+      builtin-read   a name that is not a context key, not bound by := in the expression, but a Python builtin:
+                     NameError in the model, the builtin object in Python"""
+    facts = {'reads': set(), 'binds': set(), 'len': False, 'arith': False, 'floatconst': False}
+    _py_walk(e, facts)
+    if facts['len'] and ('len' in items or 'len' in facts['binds']):
+        return 'len-shadowed'
+    if facts['floatconst']:
+        return 'float-arith'
+    if facts['arith'] and any(_has_float_w(items[n]) for n in facts['reads'] if n in items):
+        return 'float-arith'
+    if not builtin_reads_ok and any(n in PY_BUILTINS and n not in items and n not in facts['binds'] for n in facts['reads']):
+        return 'builtin-read'
+    return None
+
+
+def py_exprs_w(w):
+    """the wire PyExprs inside a wire value"""
+    if isinstance(w, list):
+        for x in w:
+            yield from py_exprs_w(x)
+    elif isinstance(w, dict):
+        if 'py' in w:
+            yield w['py']
+        for key in ('t', 'set'):
+            if key in w:
+                yield from py_exprs_w(w[key])
+        if 'd' in w:
+            for k, v in w['d']:
+                yield from py_exprs_w(k)
+                yield from py_exprs_w(v)
+        if 'jsonify' in w:
+            yield from py_exprs_w(w['jsonify'])
+
+
+def case_py_domain(case):
+    """None when every !py expression of a generated case is inside the evaluator's domain, else the first reason.
+    Formatting cases: every !py in the context and the value, on the context. Sessions: every modelled !py call
+    and every !py inside a formatted value, on the context as it is at that call."""
+    if case.get('kind') == 'session':
+        items = {k: v for k, v in case['ctx']['d']}
+        for call in case['calls']:
+            if 'set' in call:
+                items[call['set'][0]] = call['set'][1]
+            elif 'del' in call:
+                items.pop(call['del'], None)
+            else:
+                # reads of builtin names that are not context keys (max, sum) are generated on purpose in sessions:
+                # those calls are skipped at comparison time (see check_sessions), not dropped
+                if 'pyw' in call:
+                    es = [call['pyw']]
+                elif 'fmt' in call:
+                    es = list(py_exprs_w(call['fmt'])) + [e for v in items.values() for e in py_exprs_w(v)]
+                else:                     # implementation-only call: the model has no opinion
+                    es = []
+                for e in es:
+                    why = py_in_domain(e, items, builtin_reads_ok=True)
+                    if why:
+                        return why
+        return None
+    if 'ctx' not in case:
+        return None
+    items = {k: v for k, v in case['ctx']['d'] if isinstance(k, str)}
+    for e in list(py_exprs_w(case['ctx'])) + list(py_exprs_w(case.get('v'))):
+        why = py_in_domain(e, items)
+        if why:
+            return why
+    return None
+
+
+# --------------------------------------------------------------------------
 # generators
 # --------------------------------------------------------------------------
 
@@ -142,6 +269,7 @@ LITS = ['a', ' ', 'x ', ' - ', 'hé', '{{', '}}', '{{x}}', '}}{{', 'text', ':', 
         '"', '€', '0']
 KEYS = ['a', 'b', 'c', 'd', 'k1', 'key2', 'e', 'f', 'g', 'h']
 MISSING = ['zz', 'nokey', 'A']
+assert 'len' not in KEYS and not (set(MISSING) & set(dir(__import__('builtins'))))   # see py_in_domain
 
 
 class Gen:
@@ -158,7 +286,7 @@ class Gen:
         if k == 1:
             return r.random() < 0.5
         if k in (2, 3):
-            return r.choice([0, 1, 2, 5, 7, 10, 42, -1, -17, 123456, 10 ** 12])
+            return r.choice([0, 1, 2, 5, 7, 10, 42, -1, -17, 123456, 10 ** 12, 255, 65, 1234, -1234567, 8364])
         if k == 4:
             n, kk = r.choice([(3, 1), (-1, 2), (5, 0), (0, 0), (25, 3), (-7, 1)])
             return {'f': [n, kk]}
@@ -228,6 +356,14 @@ class Gen:
         return {'jsonify': inner}
 
     def py_expr(self, refs):
+        """a `!py` expression over the keys in `refs`; asserted to stay inside the evaluator's domain
+        (py_in_domain: no `len` shadowing, no arithmetic on floats, no read of a builtin name)"""
+        e = self._py_expr(refs)
+        why = py_in_domain(e, refs)
+        assert why is None, (why, e)
+        return e
+
+    def _py_expr(self, refs):
         r = self.r
         names = [k for k in refs if k.isidentifier()]
         k = r.randrange(8)
@@ -296,20 +432,45 @@ class Gen:
                 name += '.ident'
                 cur = cur['o']
                 continue
+            tag = next((t for t in ('sic', 'py', 'jsonify') if isinstance(cur, dict) and t in cur), None)
+            if tag is not None and q < 0.75:
+                # what the special-tag objects of pypyr/dsl.py really have: .value (the untouched scalar) / .yaml_tag
+                if r.random() < 0.7:
+                    name += '.value'
+                    cur = py_src(cur['py']) if tag == 'py' else cur[tag]
+                else:
+                    name += '.yaml_tag'
+                    cur = '!' + tag
+                continue
             if q < 0.55:
                 break
             name += r.choice(['[zz]', '[0]', '[7]', '.zz', '.q1', '[x y]', '.a b', '[k]', '[]', '.', '[', '[0]x', '..a',
-                              '[0', '.ident', '[-1]', '[1.5]'])
+                              '[0', '.ident', '[-1]', '[1.5]', '.value', '.yaml_tag'])
             cur = None
             break
         return name, cur
 
+    # forms of the standard mini-language beyond [[fill]align][sign][0][width][s|d]: grouping, alternate form,
+    # integer presentation types, precision, z - valid ones and the error of every kind
+    INT_SPECS = [',', '_', '08,', '012_', '#x', '#X', '#b', '#o', 'x', 'X', 'b', 'o', 'c', 'n', '_x', '_b', '_o', '#_x',
+                 '#010_b', '+,', ' ,d', '<12,', '^+#12x', '=+8_d', '0=9,', '*>#8b', '+c', '#c', ',x', ',c', '_n', ',n', ',_', '_,',
+                 ',,', '.2', '.2d', '5.1x', 'z', 'zd', '08_x', '#06x', '+#06X', '-#o', ' #b', '5c', '<4c', '05c', '9n', '+n', '#n',
+                 ',d', '_d', '01,', '02,', '03,', '04,', '05,', '06,', '07,', '010,', '0=+7_', ',b', '.0c', 'e', '.2f', ',.1f', 'g', '%']
+    STR_SPECS = ['.3', '.0', '.1', '.10', '5.2', '<6.1', '*^7.2', '>8.3s', '.', '.s', '.2d', ',', '_', ',s', '_s', ',_', '#', 'z',
+                 '#s', 'zs', '.3x', '05.1', '0>5.2', '=.2', '+.2', ' .2', '.2 ', '.02', '3.', '08.3s', 'é^9.1']
+
     def spec(self, target):
         r = self.r
         q = r.random()
-        if q < 0.55:
+        if q < 0.5:
             return ''
-        if q < 0.85:
+        if q < 0.62:
+            if isinstance(target, int):          # bool too: it formats as an int
+                return r.choice(self.INT_SPECS)
+            if isinstance(target, str):
+                return r.choice(self.STR_SPECS)
+            return r.choice(self.INT_SPECS + self.STR_SPECS)
+        if q < 0.87:
             s = ''
             if r.random() < 0.5:
                 if r.random() < 0.5:
@@ -317,12 +478,20 @@ class Gen:
                 s += r.choice('<>^=')
             if r.random() < 0.25:
                 s += r.choice('+- ')
+            if r.random() < 0.03:
+                s += 'z'
+            if r.random() < 0.15:
+                s += '#'
             if r.random() < 0.3:
                 s += '0'
             if r.random() < 0.8:
                 s += str(r.choice([0, 1, 3, 5, 8, 12, 20]))
-            if r.random() < 0.3:
-                s += r.choice('sdsdsdq')
+            if r.random() < 0.2:
+                s += r.choice([',', ',', '_', '_', ',_', '_,'])
+            if r.random() < 0.2:
+                s += '.' + r.choice(['0', '1', '2', '3', '10', ''])
+            if r.random() < 0.4:
+                s += r.choice('sdsdsdqbboxXcnxe')
             return s
         if q < 0.95:
             return r.choice(['>5', '^7', '08', 'd', 's', '5d', '+d', '=+6', 'x<4', '-3', ' 4', 'zz', 'dd', '5 ', 's5'])
@@ -502,8 +671,10 @@ def top_fields(s):
         return None
 
 
-def monitor_string(ctxw, s):
-    """Monitors for a top-level str `s`. Returns a list of (clause, detail, signature, impl_obs)."""
+def monitor_string(ctxw, s, count=None):
+    """Monitors for a top-level str `s`. Returns a list of (clause, detail, signature, impl_obs).
+    `count(key)` (optional) records which clauses applied."""
+    count = count or (lambda key: None)
     import _string
     import string
     from pypyr.context import Context
@@ -543,26 +714,54 @@ def monitor_string(ctxw, s):
         return string.Formatter().get_field(name, None, ctx)[0]
 
     named = all(n != '' and not n.isdigit() for n, _, _ in fields)
-    simple = all(cv in (None, 'r', 's', 'a') and '{' not in sp and not sp.startswith('rf') for _, sp, cv in fields)
-    # --- missing key: never a partial result; the key-lookup error when it is the first thing to fail
+
+    def resolves(n, sp, cv):
+        """does the expression get past the loop of the formatter — documented meaning: its lookup, the expansion of
+        its format spec (Python's own flat formatter), the recursion an expanded `rf` asks for and the conversion
+        that goes with rf / ff all succeed? (a plain expression is converted and format()ed after the loop)"""
+        try:
+            lookup(n)
+            # Python's own formatter at the nesting level of a format spec (str.format allows one level of
+            # fields inside a spec: '{a:{b:{c}}}'.format_map raises "Max string recursion exceeded")
+            exp = string.Formatter()._vformat(sp, (), ctx, set(), 1)[0] if '{' in sp else sp
+        except Exception:  # noqa
+            return False
+        if exp[:2] == 'rf':
+            if run('{' + n + ':rf}')[0] != 'ok':
+                return False
+        if exp[:2] in ('rf', 'ff') and cv not in (None, 'r', 's', 'a'):
+            return False
+        return True
+
+    # --- missing key: never a partial result; and exactly the key-lookup error at EVERY position: the first
+    #     expression whose first name is not a context key decides, provided every expression before it resolves
+    #     (theorem missing_key_any_field) - whatever specs / conversions / syntax errors come after it
     missing = [n for n, _, _ in fields if isinstance(first_of(n), str) and first_of(n) not in ctx]
     if missing and named:
         got = run(s)
         if got[0] == 'ok':
             out.append(('missing-key', f'{s!r} refers to missing key {missing[0]!r} but formatting returned {got[1]!r}',
                         {'monitor': 'missing-key', 'outcome': 'partial-result'}, repr(got[1])))
-        elif got[0] == 'err' and simple:
-            # the first field whose lookup fails decides
-            expected = None
-            for n, _, _ in fields:
-                try:
-                    lookup(n)
-                except Exception as e:  # noqa
-                    expected = e
+        elif got[0] == 'err':
+            expected, pos = None, 0
+            for pos, (n, sp, cv) in enumerate(fields):
+                if isinstance(first_of(n), str) and first_of(n) not in ctx:
+                    try:
+                        lookup(n)
+                    except KeyNotInContextError as e:
+                        expected = e
+                    except Exception:  # noqa   (a malformed rest of the name: no claim)
+                        pass
                     break
-            if isinstance(expected, KeyNotInContextError) and not isinstance(got[1], KeyNotInContextError):
-                out.append(('missing-key', f'{s!r}: expected KeyNotInContextError, got {type(got[1]).__name__}: {got[1]}',
-                            {'monitor': 'missing-key', 'outcome': 'wrong-error'}, repr(got[1])))
+                if not resolves(n, sp, cv):
+                    break
+            if expected is not None:
+                count('monitor:missing-key:position=' + ('first' if pos == 0 else 'later'))
+            if expected is not None and not (isinstance(got[1], KeyNotInContextError) and str(got[1]) == str(expected)):
+                out.append(('missing-key', f'{s!r}: expression {pos} refers to a missing key and everything before it '
+                            f'resolves: expected KeyNotInContextError({str(expected)!r}), got {type(got[1]).__name__}: {got[1]}',
+                            {'monitor': 'missing-key', 'outcome': 'wrong-error', 'position': 'first' if pos == 0 else 'later'},
+                            repr(got[1])))
     # --- a string that is exactly one expression
     if len(tups) == 1 and not lits and named:
         name, spec, conv = fields[0]
@@ -590,7 +789,7 @@ def monitor_string(ctxw, s):
         if '{' not in sp:
             return sp
         try:
-            return string.Formatter().vformat(sp, None, ctx)
+            return string.Formatter()._vformat(sp, (), ctx, set(), 1)[0]
         except Exception:  # noqa
             return ''
     if len(fields) + len(lits) >= 2 and named and all(first_of(n) != '' for n, _, _ in fields) and not any(expanded(sp)[:2] in ('rf', 'ff') for _, sp, _ in fields):
@@ -952,6 +1151,7 @@ BUILTIN_NAMES = {'max', 'sum'}
 S_LISTS = ['items', 'xs']
 S_MISSING = ['zz', 'nokey']
 S_TARGETS = S_NAMES + ['tmp', 'w1', 'items']
+assert 'len' not in S_TARGETS + S_LISTS + S_MISSING     # `len` is syntax in the model: see py_in_domain
 
 
 class SessGen:
